@@ -391,19 +391,28 @@ class World:
             else:
                 tag = c["obj"]["_t"]
                 self._collect(self.code_of(tag), c["obj"], args, salt)
+                kind = c.get("arg_kind", "list")
+                for k_, v_ in list(args.items()):
+                    if isinstance(v_, list):
+                        if kind == "bytearray" and all(isinstance(x, int) and not isinstance(x, bool) and 0 <= x < 256 for x in v_):
+                            args[k_] = bytearray(v_)
+                        elif kind == "tuple":
+                            args[k_] = tuple(v_)
                 obj = self.cls_of(tag)(**args)
         except Exception as e:
             out["ctor_exc"] = type(e).__name__ + ": " + str(e)[:100]
             return out
 
         def snap():
+            before = self.project(obj)                 # what the instance looks like BEFORE it is serialized (again)
+            rep0 = repr(obj)
             w = self.writer_mod.EoWriter()
             try:
                 cls.serialize(w, obj)
                 ser = list(w.to_bytearray())
             except Exception as e:
                 ser = "EXC " + type(e).__name__
-            return {"proj": self.project(obj), "ser": ser}
+            return {"proj": before, "ser": ser, "proj_after_serialize": self.project(obj), "repr_changed_by_serialize": repr(obj) != rep0}
         out["initial"] = snap()
         for a in c["actions"]:
             st = {"action": a, "exc": ""}
@@ -421,9 +430,9 @@ class World:
                 elif a["op"] == "mutate_arg":
                     lst = args.get(a["name"])
                     st["arg_type"] = type(lst).__name__
-                    if isinstance(lst, list):
+                    if isinstance(lst, (list, bytearray)):
                         if a["how"] == "append":
-                            lst.append(lst[0] if lst else None)
+                            lst.append(lst[0] if lst else (7 if isinstance(lst, bytearray) else None))
                         elif a["how"] == "clear":
                             lst.clear()
                         elif a["how"] == "reverse":
